@@ -48,6 +48,7 @@ type Fx struct {
 	curPos       token.Pos
 	loadKey      string
 	noGuard      bool
+	inAtomic     bool
 }
 
 type unsupported struct{ msg string }
